@@ -118,7 +118,7 @@ def lemma_forward(timeout_ms, only=None):
             continue
 
         def setup(it):
-            it.call_overrides["deterministic_proba"] = proba_recorder
+            it.call_overrides["pyab_experiment.binning.binning:deterministic_proba"] = proba_recorder
         run = api.run(api.call_module_function(BINNING, "deterministic_choice", [uid] + list(args), kwargs),
                       opts={"float_mode": "fp", "prune": False}, setup=setup)
         out["paths"] += len(run.paths)
